@@ -7,7 +7,7 @@ from typing import Dict, List, Optional, Tuple
 
 from ..cfg import CFG
 from ..facts import AttrWrites, FuncFacts
-from ..fold import Folder, Scope, Unfoldable, dotted, src
+from ..fold import AbsentAttribute, Folder, RecordVal, Scope, Unfoldable, dotted, src
 from ..loader import AnalysisError, Func, Repo
 
 def ctx(chk):
@@ -475,13 +475,17 @@ def inline_property(repo: Repo, cls_rel: str, cls_name: str, prop: str, recv: st
 
 
 def partial_eval(folder: Folder, func_node: ast.FunctionDef, mod, cls, env: Dict[str, object], local_funcs: Optional[Dict[str, ast.FunctionDef]] = None,
-                 depth: int = 0):
+                 depth: int = 0, effects=None, free: Optional[Dict[str, object]] = None):
     """Specialise a small pure function for concrete arguments by folding: ('return', value) | ('raise', name) |
     ('unknown', why).  Handles if/elif/else, assignments to names, return, raise and calls of sibling local functions.
     This is constant folding with bound parameters over the function's own syntax -- nothing of the repository runs."""
+    # effects = (set of dotted callee names, list): a statement-level call of one of them is recorded as (name, folded args) in the
+    # list, in program order; statement-level calls of local functions are specialised in turn (their effects go to the same
+    # list).  free = bindings visible in every specialised function (closure variables of nested functions).  Reading an
+    # attribute a probe object (fold.RecordVal) does not have ends the run with ('raise', 'AttributeError').
     if depth > 6:
         return ("unknown", "recursion")
-    env = dict(env)
+    env = {**(free or {}), **env}
     local_funcs = local_funcs or {}
 
     class _Inline(ast.NodeTransformer):
@@ -495,7 +499,7 @@ def partial_eval(folder: Folder, func_node: ast.FunctionDef, mod, cls, env: Dict
                 except Unfoldable:
                     return node
                 params = [a.arg for a in callee.args.args]
-                r = partial_eval(folder, callee, mod, cls, dict(zip(params, args)), local_funcs, depth + 1)
+                r = partial_eval(folder, callee, mod, cls, dict(zip(params, args)), local_funcs, depth + 1, effects, free)
                 if r[0] == "return" and isinstance(r[1], (int, str, bool, float, type(None), bytes)):
                     return ast.Constant(value=r[1])
             return node
@@ -509,9 +513,36 @@ def partial_eval(folder: Folder, func_node: ast.FunctionDef, mod, cls, env: Dict
         for st in stmts:
             if isinstance(st, ast.Expr) and isinstance(st.value, ast.Constant):
                 continue
+            if isinstance(st, ast.Expr) and isinstance(st.value, ast.Call) and effects is not None:
+                c_ = st.value
+                nm_ = dotted(c_.func) or ""
+                if nm_.split(".")[0] in ("logger", "log", "logging", "warnings"):
+                    continue
+                if nm_ in effects[0] and not c_.keywords:
+                    try:
+                        effects[1].append((nm_, tuple(fold(a) for a in c_.args)))
+                    except AbsentAttribute:
+                        return ("raise", "AttributeError")
+                    except Unfoldable as e:
+                        return ("unknown", f"`{src(st)[:60]}`: {e}")
+                    continue
+                if isinstance(c_.func, ast.Name) and c_.func.id in local_funcs and not c_.keywords:
+                    callee = local_funcs[c_.func.id]
+                    try:
+                        args = [fold(a) for a in c_.args]
+                    except AbsentAttribute:
+                        return ("raise", "AttributeError")
+                    except Unfoldable as e:
+                        return ("unknown", f"`{src(st)[:60]}`: {e}")
+                    r = partial_eval(folder, callee, mod, cls, dict(zip([a.arg for a in callee.args.args], args)), local_funcs, depth + 1, effects, free)
+                    if r[0] != "return":
+                        return r
+                    continue
             if isinstance(st, ast.If):
                 try:
                     t = fold(st.test)
+                except AbsentAttribute:
+                    return ("raise", "AttributeError")
                 except Unfoldable as e:
                     return ("unknown", f"test `{src(st.test)}`: {e}")
                 r = run(st.body if t else st.orelse)
@@ -522,6 +553,8 @@ def partial_eval(folder: Folder, func_node: ast.FunctionDef, mod, cls, env: Dict
                     return ("return", None)
                 try:
                     return ("return", fold(st.value))
+                except AbsentAttribute:
+                    return ("raise", "AttributeError")
                 except Unfoldable as e:
                     if "invalid literal" in str(e) or "could not convert" in str(e):
                         return ("raise", "ValueError")
@@ -534,6 +567,8 @@ def partial_eval(folder: Folder, func_node: ast.FunctionDef, mod, cls, env: Dict
             elif isinstance(st, ast.Assign) and len(st.targets) == 1 and isinstance(st.targets[0], ast.Name):
                 try:
                     env[st.targets[0].id] = fold(st.value)
+                except AbsentAttribute:
+                    return ("raise", "AttributeError")
                 except Unfoldable as e:
                     return ("unknown", f"`{src(st)}`: {e}")
             elif isinstance(st, ast.For) and not st.orelse:
